@@ -320,3 +320,49 @@ def rtree(fcp):
         svs.append("{| rv_name := %s; rv_id := %s; rv_methods := %s; rv_meta := %s |}" % (cstr(sv.name), cz(sv.id), ms, rmeta(sv.meta)))
     return "{| r_version := %s; r_structs := %s; r_enums := %s; r_impls := %s; r_services := %s |}" % (
         cz(encode_version(fcp.version)), clist(ss), clist(es), clist(ims), clist(svs))
+
+
+def fval(v):
+    if isinstance(v, bool):
+        raise TypeError("fval: bool")
+    if isinstance(v, int):
+        return f"(FInt {cz(v)})"
+    if isinstance(v, float):
+        return f"(FFloat {cz(f64_bits(v))})"
+    if isinstance(v, str):
+        return f"(FStr {cstr(v)})"
+    if isinstance(v, list):
+        return f"(FArr {clist(fval(x) for x in v)})"
+    raise TypeError(f"fval: {v!r}")
+
+
+def fdict(d):
+    return clist(cpair(cstr(k), fval(v)) for k, v in d.items())
+
+
+def front(fcp):
+    """FcpV2 (as returned by the real front end) -> Front.Elab.front"""
+    def ob(x):
+        if x is None:
+            return "None"
+        if not isinstance(x, float):
+            raise TypeError(f"front: min/max not float: {x!r}")
+        return f"(Some {cz(f64_bits(x))})"
+    ss = []
+    for s in fcp.structs:
+        fs = clist("{| ff_name := %s; ff_id := %s; ff_type := %s; ff_unit := %s; ff_min := %s; ff_max := %s |}" % (
+            cstr(f.name), cz(f.field_id), sty(f.type), _ostr(f.unit), ob(f.min_value), ob(f.max_value)) for f in s.fields)
+        ss.append("{| fs_name := %s; fs_fields := %s |}" % (cstr(s.name), fs))
+    es = [cpair(cstr(e.name), clist(cpair(cstr(x.name), cz(x.value)) for x in e.enumeration)) for e in fcp.enums]
+    ims = []
+    for i in fcp.impls:
+        sg = clist("{| fg_name := %s; fg_fields := %s |}" % (cstr(g.name), fdict(g.fields)) for g in i.signals)
+        ims.append("{| fi_name := %s; fi_protocol := %s; fi_type := %s; fi_fields := %s; fi_signals := %s |}" % (
+            cstr(i.name), cstr(i.protocol), cstr(i.type), fdict(i.fields), sg))
+    svs = []
+    for sv in fcp.services:
+        ms = clist("{| fm_name := %s; fm_id := %s; fm_input := %s; fm_output := %s |}" % (cstr(m.name), cz(m.id), cstr(m.input), cstr(m.output)) for m in sv.methods)
+        svs.append("{| fv_name := %s; fv_id := %s; fv_methods := %s |}" % (cstr(sv.name), cz(sv.id), ms))
+    ds = ["{| fd_name := %s; fd_fields := %s |}" % (cstr(d.name), fdict(d.fields)) for d in fcp.devices]
+    return "{| f_structs := %s; f_enums := %s; f_impls := %s; f_services := %s; f_devices := %s |}" % (
+        clist(ss), clist(es), clist(ims), clist(svs), clist(ds))
